@@ -226,7 +226,10 @@ class Xform(ast.NodeTransformer):
     def visit_GeneratorExp(self, n):
         # a single-generator generator expression consumed by sorted()/list()/tuple()/set(): same rewrite as a list
         r = self.visit_ListComp(ast.copy_location(ast.ListComp(n.elt, n.generators), n))
-        return r
+        if isinstance(r, ast.Call) and isinstance(r.func, ast.Name) and r.func.id == "__pyvc_map__":
+            r.func = ast.Name("__pyvc_genmap__", ast.Load())      # stays lazy (a real generator) over concrete iterables
+            return r
+        return n      # not rewritten: it stays the generator expression it was
 
     def visit_DictComp(self, n):
         self.generic_visit(n)
@@ -237,6 +240,12 @@ class Xform(ast.NodeTransformer):
                 lam = ast.Lambda(ast.arguments(posonlyargs=[], args=args, kwonlyargs=[], kw_defaults=[], defaults=[]),
                                  ast.Tuple([n.key, n.value], ast.Load()))
                 return ast.copy_location(ast.Call(ast.Name("__pyvc_dictcomp__", ast.Load()), [lam, g.iter], []), n)
+            if isinstance(g.target, ast.Name):
+                # {key(x): value(x) for x in seq}: the element is passed as ONE argument (marked by the keyword)
+                lam = ast.Lambda(ast.arguments(posonlyargs=[], args=[ast.arg(g.target.id)], kwonlyargs=[], kw_defaults=[], defaults=[]),
+                                 ast.Tuple([n.key, n.value], ast.Load()))
+                return ast.copy_location(ast.Call(ast.Name("__pyvc_dictcomp__", ast.Load()), [lam, g.iter],
+                                                  [ast.keyword("single", ast.Constant(True))]), n)
         return n
 
     def visit_JoinedStr(self, n):
@@ -439,7 +448,7 @@ def extract(modname, qualname, inv_loops=None, label=None):
     return code, info, node.name
 
 
-def exec_module_constant(ns, modname, name, _depth=0):
+def exec_module_constant(ns, modname, name, _depth=0, resolve=None):
     """Module-level `NAME = <pure expression>` (constants, other module-level names, attributes such as np.pi,
     arithmetic, tuples; no calls): evaluated in the harness namespace with the same literal rewrite as function
     bodies.  Returns True when the name is now bound.  Anything else is left unbound (-> undecided at use)."""
@@ -457,7 +466,10 @@ def exec_module_constant(ns, modname, name, _depth=0):
             return False
         for x in ast.walk(val):
             if isinstance(x, ast.Name) and x.id not in ns and _depth < 4:
-                exec_module_constant(ns, modname, x.id, _depth + 1)
+                # another constant, or (through the caller's resolver) a module-level function / class the constant
+                # refers to, e.g. a dispatch table `_STRATEGIES = (("towers", _run_towers), ...)`
+                if not exec_module_constant(ns, modname, x.id, _depth + 1, resolve=resolve) and resolve is not None:
+                    resolve(x.id)
 
         class _Lit(ast.NodeTransformer):
             def visit_Constant(self, c):
@@ -491,7 +503,7 @@ def base_namespace():
     from . import engine, sym
     from . import values
     return {"__F__": sym.F, "__J__": sym.J, "__pyvc_snap__": snap, "__pyvc_map__": values.s_map,
-            "__pyvc_dictcomp__": values.s_dictcomp,
+            "__pyvc_dictcomp__": values.s_dictcomp, "__pyvc_genmap__": values.s_genmap,
             "__pyvc_range__": engine.RangeIter, "__pyvc_seq__": engine.SeqIter,
             "__pyvc_loop__": _mkloop,
             # numba.prange: a range whose iterations may run concurrently; under A4 (a kernel computes what its Python body
